@@ -640,8 +640,10 @@ class Peer:
             await self.proto.new_eors()
             log.debug(lazymsg('eor.sent.all'), self.id())
 
-        # Manual EOR from API commands
-        elif self.neighbor.eor:
+        # Manual EOR from API commands. An End-of-RIB closes what was queued before it: while a batch of updates is
+        # still being sent (25 messages per turn) it waits -- asked for while the session was down, it was sent after
+        # the first slice of the new session's table, and a graceful-restart peer then drops the rest as stale
+        elif self.neighbor.eor and not new_routes:
             new_eor = cast(Family, self.neighbor.eor.popleft())
             await self.proto.new_eors(new_eor.afi, new_eor.safi)
 
